@@ -477,9 +477,14 @@ type Obj struct {
 
 // genObject draws a host object (0 = nil).
 func genObject(c *verifsim.Chooser) (interface{}, string) {
-	kind := c.Intn(5)
+	kind := c.Intn(6)
 	if kind == 0 {
 		return nil, "nil"
+	}
+	if kind == 5 {
+		// same type name, different types
+		i := c.Intn(4)
+		return []func() interface{}{c07Anon1, c07Anon2, c07Local1, c07Local2}[i](), fmt.Sprintf("same-named type #%d", i)
 	}
 	o := Obj{
 		A: []int{1, 0, 2, 3, 7}[c.Intn(5)],
